@@ -734,7 +734,7 @@ FairSpec == Spec /\ WF_vars(PersisterStep) /\ WF_vars(MergerStep) /\ WF_vars(Cli
 \* properties
 
 \* C01: the root exposes exactly the abstract index
-C01_RootIsAbstract == Up => Vis(root.ents) = Abs(applied)
+C01_RootIsAbstract == Up => Vis(root.ents) = AbsPrefix(Len(applied))
 C01_SegIdsUnique == Up => \A i, j \in 1..Len(root.ents) : root.ents[i].id = root.ents[j].id => i = j
 UpdateOnly(id) == \A u \in DOMAIN batchOf :
                      /\ Cardinality({k \in 1..Len(batchOf[u].add) : batchOf[u].add[k] = id}) <= 1
